@@ -19,7 +19,7 @@ RULE = ("full product: class {BaseSamples,Samples,SMCSamples} x source ns x targ
         "{float32,float64} x requested dtype {None,'float32','float64', native object of the target} x field subset "
         "{none, all, L+pi, q only} x route {to_namespace, to_numpy, from_samples(xp=), sample_posterior(xp=)}; dtype helpers "
         "over 14 spellings x 3 namespaces; sampler populations (initial, every stored, restored, final) for requested dtype x "
-        "namespace x sampler; JAX sources with JAX's default 64-bit-disabled configuration (fresh interpreter) into torch/numpy with a float64 request; zuko/flowjax outputs into Samples(xp=ns). non-trivial = cross-namespace or dtype-changing case")
+        "namespace x sampler x {wide prior, tight prior whose rejected proposal draws make the initial population a concatenation of several batches}; JAX sources with JAX's default 64-bit-disabled configuration (fresh interpreter) into torch/numpy with a float64 request; zuko/flowjax outputs into Samples(xp=ns). non-trivial = cross-namespace or dtype-changing case")
 ASSUMPTIONS = [
     "values 0.1*(i+1)+j style floats that are not exactly representable in float32, so that a silent narrowing changes values",
     "stub kernels for the sampler-population part",
@@ -236,12 +236,13 @@ def run_sampler_dtypes(arg):
     """dtype of every population a sampler builds, restores or returns."""
     sampler, ns, dt = arg[:3]
     cb = arg[3] if len(arg) > 3 else None
+    problem = arg[4] if len(arg) > 4 else "none"  # "tight": proposal draws fall outside the prior, the initial population is assembled from several batches
     from env import resume_harness as rh
 
     r = Report()
     cfg = {"sampler": sampler, "N": 8, "opts": {"adaptive": True, "target_efficiency": 0.8}, "cadence": 1, "n_final": 10,
-           "precond": "none", "seed": 0, "ns": ns, "dtype": dt, "callback_dtype": cb}
-    case = {"sampler": sampler, "ns": ns, "dtype": dt, "callback_dtype": cb}
+           "precond": problem, "seed": 0, "ns": ns, "dtype": dt, "callback_dtype": cb}
+    case = {"sampler": sampler, "ns": ns, "dtype": dt, "callback_dtype": cb, "problem": problem}
     r.case(explorer.digest(case), nontrivial=True)
     want = dt if dt is not None else ("float32" if ns == "torch" else "float64")
 
@@ -251,6 +252,13 @@ def run_sampler_dtypes(arg):
             return False
         pops = [("final", R.result["final"])] + [(f"history[{i}]", s) for i, s in enumerate(R.history["sample_history"])]
         for name, s in pops:
+            xs = np.asarray(s["x"])
+            if want == "float64" and xs.size >= 4 and np.all(xs.astype(np.float32).astype(np.float64) == xs):
+                # every coordinate is exactly a float32 number: the population went through a narrower width on the way
+                which = "initial" if name == "history[0]" else "final" if name == "final" else "iteration"
+                r.violation(f"C15/sampler/{sampler}/population-passed-through-float32/{which}/{stage}/{ns}",
+                            {"population": name, "x": xs[:2].tolist()}, dict(case, stage=stage))
+                return True
             for f in ("x", "L", "P", "Q"):
                 if s[f] is None:
                     continue
@@ -278,6 +286,9 @@ def run_sampler_dtypes(arg):
         r2 = rh.run(cfg, resume_from=R.sink[0][1])
         r.case(explorer.digest([case, "resumed"]), nontrivial=True)
         inspect_run(r2, "resumed")
+    if problem != "none":
+        r.sample(case)
+        return r.dump()
     # importance sampling and the output-namespace option
     from aspire import Aspire
     from env.flows import AnalyticFlow
@@ -451,6 +462,7 @@ def run(tier, seed, workers):
                 # user callables that return the *other* float width (e.g. a NumPy likelihood always returns float64)
                 other = "float64" if dt == "float32" else "float32"
                 jobs.append(("run_sampler_dtypes", (sampler, ns, dt, other)))
+                jobs.append(("run_sampler_dtypes", (sampler, ns, dt, None, "tight")))
     jobs.append(("run_x64_off", None))
     jobs.append(("run_flow_outputs", "zuko"))
     jobs.append(("run_flow_outputs", "flowjax"))
@@ -470,5 +482,5 @@ def replay(case):
     elif "backend" in case:
         r.merge(run_flow_outputs(case["backend"]))
     else:
-        r.merge(run_sampler_dtypes((case["sampler"] if case["sampler"] != "importance" else "smc", case["ns"], case["dtype"], case.get("callback_dtype"))))
+        r.merge(run_sampler_dtypes((case["sampler"] if case["sampler"] != "importance" else "smc", case["ns"], case["dtype"], case.get("callback_dtype"), case.get("problem", "none"))))
     return r
